@@ -481,8 +481,13 @@ func (c *tunnelChannel) recvLoop() {
 			return
 		}
 		supportedRevisions := c.tunnelOpts.supportedRevisions()
+		serverRevisions := settings.Settings.SupportedProtocolRevisions
+		if len(serverRevisions) == 0 {
+			// per the protocol, an empty list means only revision zero
+			serverRevisions = []tunnelpb.ProtocolRevision{tunnelpb.ProtocolRevision_REVISION_ZERO}
+		}
 		var supported bool
-		for _, rev := range settings.Settings.SupportedProtocolRevisions {
+		for _, rev := range serverRevisions {
 			switch {
 			case inSlice(rev, supportedRevisions):
 				if rev > c.useRevision {
